@@ -29,11 +29,16 @@ pub struct P {
     pub sym_ratios: bool,
     /// carol, the liquidator and the stranger hold small positions opened in an earlier block
     pub bystanders: bool,
+    /// oracle price at liquidation time symbolic (both sides of the 10% spread boundary)
+    pub sym_oracle: bool,
+    /// counter-trade size of liquidation templates symbolic even with a concrete prefix
+    pub sym_counter: bool,
+    pub fault: Option<(&'static str, u64)>,
 }
 
 impl P {
     pub fn new(prop: &'static str, side: Side, seed: u64) -> P {
-        P { prop, native: false, dec: 9, fees: false, side, wide: false, seed, partial_sym: false, full_prefix: false, concrete_prefix: false, sym_lev: false, sym_lim: false, sym_ratios: false, bystanders: prop == "C10" }
+        P { prop, native: false, dec: 9, fees: false, side, wide: false, seed, partial_sym: false, full_prefix: false, concrete_prefix: false, sym_lev: false, sym_lim: false, sym_ratios: false, bystanders: prop == "C10", sym_oracle: false, sym_counter: false, fault: None }
     }
     pub fn native(mut self) -> P {
         self.native = true;
@@ -111,6 +116,7 @@ impl P {
     }
     pub fn run_cfg(&self, cfg: Cfg) -> Run {
         let mut r = Run::new(cfg, Mon::only(self.prop));
+        r.fault = self.fault;
         if self.bystanders {
             let d = r.w.d;
             let was_full = symrt::is_full();
@@ -124,6 +130,18 @@ impl P {
             symrt::set_full(was_full);
         }
         r
+    }
+    pub fn fault(mut self, site: &'static str, n: u64) -> P {
+        self.fault = Some((site, n));
+        self
+    }
+    pub fn oracle(mut self) -> P {
+        self.sym_oracle = true;
+        self
+    }
+    pub fn counter(mut self) -> P {
+        self.sym_counter = true;
+        self
     }
     pub fn with_bystanders(mut self) -> P {
         self.bystanders = true;
@@ -140,6 +158,8 @@ impl P {
             if self.sym_lev { ".lev" } else { "" },
             if self.sym_lim { ".lim" } else { "" }
         ) + if self.sym_ratios { ".ratios" } else { "" }
+            + if self.sym_oracle { ".oracle" } else { "" }
+            + if self.sym_counter { ".counter" } else { "" }
     }
     fn prefix_mode(&self) {
         symrt::set_full(self.full_prefix);
@@ -252,7 +272,7 @@ pub fn t_liq(p: P, regime: u128) -> impl Fn() {
         }
         r.w.next_block(15);
         // regimes (counter-trade size): 5 shallow (ratio ~3%), 7 boundary (~0%), 45 deep under water
-        let m2 = p.pre_amount("m2", d, regime);
+        let m2 = if p.sym_counter { amount("m2", d, false, regime) } else { p.pre_amount("m2", d, regime) };
         let l2 = Uint128::new(10 * d);
         let f = funds_for(&r, &p, m2, l2);
         let t = r.step(Op::Open { who: BOB, side: opp(&p.side), margin: m2, lev: l2, limit: Uint128::zero(), funds: f });
@@ -261,6 +281,19 @@ pub fn t_liq(p: P, regime: u128) -> impl Fn() {
         }
         // let the 15-minute TWAP catch up with the spot price
         r.w.next_block(1000);
+        if p.sym_oracle {
+            let spot = r.w.spot_price(0).map(|x| crate::sx::x(x)).ok();
+            let seed_price = match spot {
+                Some(symrt::SymU128::C(v)) => v,
+                Some(x) => symrt::witness_of(x).to_u128().unwrap_or(10 * d),
+                None => 10 * d,
+            };
+            // seeds on both sides of the 10% spread boundary
+            let seed_price = [seed_price, seed_price * 95 / 100, seed_price * 80 / 100, seed_price * 125 / 100][(p.seed % 4) as usize];
+            let price = crate::sx::var("oracle", 1, 1_000 * d, seed_price);
+            let now = r.w.now();
+            r.w.set_oracle(price, now);
+        }
         symrt::set_full(true);
         let lim = p.tx_lim("qlim", d);
         r.step(Op::Liquidate { by: LIQ, trader: ALICE, limit: lim });
@@ -363,5 +396,42 @@ pub fn t_close_regime(p: P, units: u128) -> impl Fn() {
         symrt::set_full(true);
         let lim = p.tx_lim("qlim", d);
         r.step(Op::Close { who: ALICE, limit: lim });
+    }
+}
+
+/// T-fund-pclose: positions, a funding settlement with a symbolic oracle price, then alice closes
+/// under a fluctuation limit (partial close), the limit is lifted and she closes the rest
+pub fn t_fund_pclose(p: P) -> impl Fn() {
+    move || {
+        let mut cfg = p.cfg();
+        let d = cfg.d();
+        cfg.partial_ratio = Uint128::new(d / 4);
+        let mut r = p.run_cfg(cfg);
+        p.prefix_mode();
+        let m1 = Uint128::new((30 + (p.seed % 9) as u128) * d);
+        let l1 = Uint128::new(2 * d);
+        assert!(r.step(Op::Open { who: ALICE, side: p.side.clone(), margin: m1, lev: l1, limit: Uint128::zero(), funds: None }).tx.ok);
+        r.w.next_block(15);
+        let m2 = Uint128::new((10 + (p.seed % 5) as u128) * d);
+        assert!(r.step(Op::Open { who: BOB, side: opp(&p.side), margin: m2, lev: l1, limit: Uint128::zero(), funds: None }).tx.ok);
+        r.w.next_block(86_400);
+        let price = crate::sx::var("oracle", 1, 1_000 * d, (if p.seed % 2 == 0 { 9 } else { 11 }) * d);
+        let now = r.w.now();
+        r.w.set_oracle(price, now);
+        symrt::set_full(true);
+        if !r.step(Op::PayFunding { by: EVE }).tx.ok {
+            return;
+        }
+        r.w.next_block(15);
+        // a tight band: closing the whole position would leave it, so a fraction is closed
+        assert!(r.w.update_vamm(0, None, None, None, None, Some(Uint128::new(d / 1000)), None).ok);
+        r.w.next_block(15);
+        let t = r.step(Op::Close { who: ALICE, limit: Uint128::zero() });
+        if !t.tx.ok {
+            return;
+        }
+        r.w.next_block(15);
+        assert!(r.w.update_vamm(0, None, None, None, None, Some(Uint128::zero()), None).ok);
+        r.step(Op::Close { who: ALICE, limit: Uint128::zero() });
     }
 }
